@@ -498,3 +498,10 @@ Proof.
   destruct (parse_all cfg ts) as [e|]; [|reflexivity].
   destruct e; try reflexivity; rewrite <- compile_parsed_strict_irrelevant by reflexivity; reflexivity.
 Qed.
+
+Theorem select_pair_t_correct : forall cfg atoms ts,
+  select_pair_t cfg atoms ts = (select_pair cfg atoms ts, tokens_well_typed cfg ts).
+Proof.
+  intros cfg atoms ts. unfold select_pair_t, select_pair, tokens_well_typed, compile_tokens.
+  destruct (parse_all cfg ts) as [e|]; [|reflexivity]. destruct e; reflexivity.
+Qed.
